@@ -46,7 +46,7 @@ class FakeB2:
 
     async def handle(self, request):
         act = self.plan(request) if getattr(self, 'plan', None) else None
-        if act is not None:
+        if act is not None and act[0] != 'cutreal':
             from .fakes3 import apply_fault
             return await apply_fault(self, request, act)
         body = await request.aread()
@@ -63,6 +63,9 @@ class FakeB2:
                 raise r
             if r is not None:
                 return r
+        if act is not None and act[0] == 'cutreal':
+            from .fakes3 import cut_real
+            return await cut_real(self, request, self._respond(request, rec, body), act[1])
         return self._respond(request, rec, body)
 
     def _err(self, status, code):
@@ -87,9 +90,12 @@ class FakeB2:
                 return self._err(401, 'expired_auth_token')
             name = unquote(h.get('x-bz-file-name', ''))
             if 'content-length' in h and int(h['content-length']) != len(body):
-                return self._err(400, 'bad_request')
-            self.versions.setdefault(name, []).append(('upload', body))
-            return httpx.Response(200, json={'fileName': name, 'fileId': 'id', 'contentLength': len(body)})
+                # what the real HTTP stack does: the CLIENT side (h11) refuses to finish a message whose body does not have the declared length
+                raise httpx.LocalProtocolError('Too %s data for declared Content-Length' % ('little' if len(body) < int(h['content-length']) else 'much'), request=request)
+            self.ntok += 1
+            fid = 'f-%d' % self.ntok
+            self.versions.setdefault(name, []).append(('upload', body, fid))
+            return httpx.Response(200, json={'fileName': name, 'fileId': fid, 'contentLength': len(body)})
         if host == 'dl.fake-b2.test':
             if h.get('authorization') not in self.tokens:
                 return self._err(401, 'expired_auth_token')
@@ -125,7 +131,8 @@ class FakeB2:
             names = sorted(n for n in self.visible() if n.startswith(prefix) and n >= start)
             page = names[:count]
             nxt = names[count] if len(names) > count else None
-            return httpx.Response(200, json={'files': [{'fileName': n, 'action': 'upload', 'contentLength': len(self.visible()[n])} for n in page], 'nextFileName': nxt})
+            return httpx.Response(200, json={'files': [{'fileName': n, 'fileId': self._fid(n, len(self.versions[n]) - 1), 'action': 'upload', 'contentLength': len(self.visible()[n])}
+                                                       for n in page], 'nextFileName': nxt})
         if path.endswith('/b2_hide_file'):
             name = args.get('fileName')
             vs = self.versions.get(name)
@@ -133,9 +140,23 @@ class FakeB2:
                 return self._err(400, 'no_such_file')
             if vs[-1][0] == 'hide':
                 return self._err(400, 'already_hidden')
-            vs.append(('hide',))
+            self.ntok += 1
+            vs.append(('hide', None, 'f-%d' % self.ntok))
             return httpx.Response(200, json={'fileName': name, 'action': 'hide'})
+        if path.endswith('/b2_delete_file_version'):
+            # removes ONE version; whatever lies underneath (an older upload, a hide marker) becomes the newest again
+            name, fid = args.get('fileName'), args.get('fileId')
+            vs = self.versions.get(name) or []
+            for i in range(len(vs)):
+                if self._fid(name, i) == fid:
+                    del vs[i]
+                    return httpx.Response(200, json={'fileName': name, 'fileId': fid})
+            return self._err(400, 'file_not_present')
         return self._err(404, 'not_found')
+
+    def _fid(self, name, i):
+        v = self.versions[name][i]
+        return v[2] if len(v) > 2 else 'legacy-%s-%d' % (name, i)
 
 
 def client(fake, **kw):
